@@ -8,7 +8,7 @@
 (* follows the modelled algorithm, so the exhaustive design result does not           *)
 (* transfer); it is never a violation.                                                *)
 (* trace: [id, acts (seq of action names: EnvOpen EnvClose DepsOpen DepsClose          *)
-(*         DepsRename SkipDeps CacheOpen CacheClose MkOpen MkClose Touch Crash)]       *)
+(*         DepsRename SkipDeps CacheOpen CacheClose MkOpen MkClose MkRename Touch Crash)]       *)
 EXTENDS Regen, Sequences, IOUtils
 Traces == JsonDeserialize(IOEnv.TRACE_FILE)
 VARIABLES t, l
@@ -17,7 +17,7 @@ ConfInit == Init /\ t \in 1..Len(Traces) /\ l = 1
 Logged(a) == CASE a = "EnvOpen" -> EnvOpen [] a = "EnvClose" -> EnvClose [] a = "DepsOpen" -> DepsOpen
                [] a = "DepsClose" -> DepsClose [] a = "DepsRename" -> (DepsRename \/ SkipDeps) [] a = "SkipDeps" -> SkipDeps
                [] a = "CacheOpen" -> CacheOpen [] a = "CacheClose" -> CacheClose [] a = "MkOpen" -> MkOpen
-               [] a = "MkClose" -> MkClose [] a = "Touch" -> Touch [] a = "Crash" -> Crash
+               [] a = "MkClose" -> MkClose [] a = "MkRename" -> MkRename [] a = "Touch" -> Touch [] a = "Crash" -> Crash
 \* (writing the temporary depfile does not change the modelled state: DepsOpen / DepsClose are silent)
 Silent == Configure \/ Edit \/ MakeCheck \/ Ack \/ LoadEnv \/ Check \/ Script \/ DepsOpen \/ DepsClose
 ConfNext == \/ (l <= Len(Traces[t].acts) /\ Logged(Traces[t].acts[l]) /\ l' = l + 1 /\ UNCHANGED t)
